@@ -94,6 +94,9 @@ type Config struct {
 	NShards    int // 0/1 = no sharding; shards split the executions at depth ShardDepth+1 of the search tree
 	ShardDepth int // default 1: every shard runs the root and its children, grandchildren are dealt round-robin
 	Trace      bool
+	// OnPoint, when set, is called at every visible operation before the scheduling decision
+	// (per-point monitors such as the shared-data fingerprint of C10).
+	OnPoint func(x *Exec)
 	// NoStateCache disables happens-before state caching (see stateKey).
 	NoStateCache bool
 	// Check is called after each execution with its observation; a non-empty return is a violation.
@@ -388,6 +391,9 @@ func (x *Exec) Point(op Op, obj Object, arg int) {
 	if x.steps > horizon {
 		x.Fail("horizon of %d steps reached", horizon)
 		x.abort()
+	}
+	if x.cfg.OnPoint != nil {
+		x.cfg.OnPoint(x)
 	}
 	if !x.dispatch(t) {
 		x.abort()
